@@ -351,6 +351,7 @@ pub fn c08_block(b: usize, sink: &mut Sink, judge: &Judge) {
         }
         case.builder_detour = rng.below(4) as u8;
         case.noise = rng.below(6) as u8;
+        case.version = if rng.chance(1, 3) { rng.range(1, 4) as u8 } else { 0 };
         match rng.below(8) {
             0 => case.accept_encoding = Some(b"identity".to_vec()),
             // a client that prefers gzip, a server configured not to compress: identity coding
@@ -540,6 +541,7 @@ pub fn c09_block(b: usize, sink: &mut Sink, judge: &Judge) {
                 }
                 case.builder_detour = rng.below(4) as u8;
                 case.noise = rng.below(6) as u8;
+                case.version = if rng.chance(1, 3) { rng.range(1, 4) as u8 } else { 0 };
                 vec![case]
             }
         }, judge);
@@ -642,7 +644,7 @@ fn c17_run(n: &NegCase, sink: &mut Sink) -> (Verdict, Option<u64>, Value) {
     let mut first_hdrs: Option<Vec<(String, Vec<u8>)>> = None;
     for method in ["GET", "POST", "HEAD"] {
         for via_parts in [false, true] {
-            let case = StreamCase { method: method.into(), accept_encoding: n.accept_encoding.clone(), chunk: n.chunk, gzip_level: n.level, via_parts, payload: Payload::Text, ops: vec![Op::WriteAll(300), Op::WriteV(vec![n.chunk as u32 + 1, 40, 2 * n.chunk as u32]), Op::WriteAll(5)], extra_polls: 1, fresh_wakers: false, prelude: 0, builder_detour: (hash64(n) % 4) as u8, noise: ((hash64(n) >> 8) % 6) as u8 };
+            let case = StreamCase { method: method.into(), accept_encoding: n.accept_encoding.clone(), chunk: n.chunk, gzip_level: n.level, via_parts, payload: Payload::Text, ops: vec![Op::WriteAll(300), Op::WriteV(vec![n.chunk as u32 + 1, 40, 2 * n.chunk as u32]), Op::WriteAll(5)], extra_polls: 1, fresh_wakers: false, prelude: 0, builder_detour: (hash64(n) % 4) as u8, noise: ((hash64(n) >> 8) % 6) as u8, version: ((hash64(n) >> 16) % 5) as u8 };
             let o = match run_stream(&case) {
                 Some(o) => o,
                 None => return (Verdict::DontCare("inexpressible".into()), None, json!(null)),
@@ -723,7 +725,7 @@ fn c17_many_live(k: usize, sink: &mut Sink) {
         let mut live = Vec::new();
         for i in 0..n {
             let gz = i % 3 != 2;
-            let case = StreamCase { method: "GET".into(), accept_encoding: if gz { Some(b"gzip".to_vec()) } else { None }, chunk: 4096, gzip_level: Some(1 + (i % 9) as u32), via_parts: i % 2 == 0, payload: Payload::Text, ops: vec![], extra_polls: 0, fresh_wakers: false, prelude: 0, builder_detour: 0, noise: 0 };
+            let case = StreamCase { method: "GET".into(), accept_encoding: if gz { Some(b"gzip".to_vec()) } else { None }, chunk: 4096, gzip_level: Some(1 + (i % 9) as u32), via_parts: i % 2 == 0, payload: Payload::Text, ops: vec![], extra_polls: 0, fresh_wakers: false, prelude: 0, builder_detour: 0, noise: 0, version: 0 };
             match build(&case) {
                 Some((resp, Some(w))) => live.push((gz, resp, w)),
                 _ => return Some("build returned no writer".into()),
